@@ -88,7 +88,7 @@ def agree(case, out, res):
     if 'err' in res:
         return None if out.startswith('err') else 'impl raised %s (%s), model presents %s' % (res['err'], res.get('msg'), out[:60])
     if not out.startswith('ok '):
-        return 'model %s, impl returned %d steps' % (out[:40], res['view']['nt'])
+        return 'model %s, impl returned %s steps' % (out[:40], res['view'].get('nt'))
     return camx.diff_view(out, res['view'])
 
 
@@ -97,6 +97,8 @@ def oracle(case, res):
         return None
     b, full = _file_bytes(case['spec'])
     v = res['view']
+    if 'inconsistent' in v:
+        return 'prefix of %d bytes opens without error but %s' % (case['cut'], v['inconsistent'])
     for k in ('nspec', 'nx', 'ny', 'nz', 'species'):
         if v[k] != full[k]:
             return 'prefix of %d bytes presents %s=%s, the full file %s' % (case['cut'], k, v[k], full[k])
@@ -125,6 +127,8 @@ def distribution(recs):
         if 'err' in r['impl']:
             d['errors'] += 1
             d['err_' + r['impl']['err']] = d.get('err_' + r['impl']['err'], 0) + 1
+        elif 'inconsistent' in r['impl']['view']:
+            d['inconsistent'] = d.get('inconsistent', 0) + 1
         else:
             k = r['impl']['view']['nt']
             d['ok_steps'][k] = d['ok_steps'].get(k, 0) + 1
